@@ -357,6 +357,8 @@ def w_cdda(pid, tier, seed, job):
         tracks = []
         for k, f0 in enumerate(fr):
             title = None if rng.random() < 0.3 else "T%d %s" % (k + 1, rng.choice(["x", "song", "Ab-c", "q.r"]))
+            if n >= 2 and k < 2 and job % 2 == 0:
+                title = ["Intro", "INTRO"][k]            # siblings that differ only in letter case: each listing states its OWN values
             tracks.append({"number": k + 1, "mode": "AUDIO", "title": title, "indices": [(1, f0 // 4500, (f0 // 75) % 60, f0 % 75)]})
         whole = rng.random() < 0.7
         total = (fr[-1] + rng.choice([0, 1, 2, 9])) * 2352 + (0 if whole else rng.choice([1, 3, 4, 7, 2351]))
